@@ -52,3 +52,47 @@ Example C17_nonvacuous :
   forest_ok gS (fun y s e => (y =? 0) && (e =? s + 1)) (fun p => p) false 1 0 3 false F_pre = true
   /\ length (root_trees F_pre) = 2%nat.
 Proof. vm_compute. split; reflexivity. Qed.
+
+(* ---- the GLR driver model (Model/GLR.v) with consume_input off ---------------------------------- *)
+From PV Require Import Model.Scan Model.Parser Model.GLR Model.ForestGraph Spec.GLRSpec
+  Proofs.GLRProofs Proofs.GLRWitness.
+
+(* soundness for consume_input = false (instance of C01_glr_model_sound): every tree of the
+   forest the model returns is a derivation tree rooted in the start symbol *)
+Theorem C17_glr_model_sound :
+  forall (c : pconf) (inp : pinput) (fuel : nat) (pos start : N) (nodes : forest) (root : nat),
+    pc_consume c = false ->
+    table_struct (pc_g c) (pc_tb c) start = true ->
+    glr_parse_full c inp fuel pos = GLRForest nodes root ->
+    forall t, unfolds (glr_forest nodes root) (pred (length (glr_forest nodes root))) t ->
+              wf_tree (pc_g c) t /\ root_sym (pc_g c) t = Some (NT start).
+Proof. intros c inp fuel pos start nodes root _. exact (glr_full_sound c inp fuel pos start nodes root). Qed.
+Print Assumptions C17_glr_model_sound.
+
+(* "all derivations of all sentence prefixes" is FALSE of the faithful model: S: A A A | EMPTY;
+   A: S 'b' | EMPTY;  consume_input=False, input "b": a certified derivation of a prefix is
+   missing from the forest (KF-C17-lost-derivations) *)
+Theorem C17_glr_model_lost_refuted :
+  exists (c : pconf) (inp : pinput) (fuel : nat) (start : N) (nodes : forest) (root : nat) (t : tree),
+    pc_consume c = false /\
+    table_struct (pc_g c) (pc_tb c) start = true /\
+    glr_parse_full c inp fuel 0 = GLRForest nodes root /\
+    valid_parse c inp start 0 t = true /\
+    wf_tree (pc_g c) t /\ root_sym (pc_g c) t = Some (NT start) /\
+    forall t', unfolds (glr_forest nodes root) (pred (length (glr_forest nodes root))) t' ->
+               shape t' <> shape t.
+Proof. exact glr_model_prefix_lost. Qed.
+Print Assumptions C17_glr_model_lost_refuted.
+
+(* "each once" is FALSE of the faithful model: S: S S S | S S | 'a'; consume_input=False,
+   "aaaaa": a packed node reachable from the root holds one alternative twice
+   (KF-C17-duplicate-derivations) *)
+Theorem C17_glr_model_duplicate_refuted :
+  exists (c : pconf) (inp : pinput) (fuel : nat) (start : N) (nodes : forest) (root k : nat),
+    pc_consume c = false /\
+    table_struct (pc_g c) (pc_tb c) start = true /\
+    glr_parse_full c inp fuel 0 = GLRForest nodes root /\
+    reach nodes root k /\ nodup_alts (nth k nodes []) = false /\
+    forest_nodup (glr_forest nodes root) = false.
+Proof. exact glr_model_prefix_duplicates. Qed.
+Print Assumptions C17_glr_model_duplicate_refuted.
